@@ -191,3 +191,954 @@ def gen_all(ctx):
             'Open Scope R_scope.\n'
             + gen_piecewise_function() + gen_nl_corr())
     ctx.gen('Piecewise', text)
+
+
+# ============================================================================ numbers
+def dy(x):
+    """normalised dyadic (m odd, e) of a double, (0, 0) for zero -- same convention as the bridge"""
+    x = float(x)
+    if x == 0:
+        return (0, 0)
+    n, d = x.as_integer_ratio()
+    e = -(d.bit_length() - 1)
+    while n % 2 == 0:
+        n //= 2
+        e += 1
+    return (n, e)
+
+
+def cdy(x):
+    m, e = dy(x)
+    return f'({cz(m)}, {cz(e)})'
+
+
+def hx(x):
+    return float(x).hex()
+
+
+def fr(x):
+    return Fraction(float(x))
+
+
+def grid(rng, lo, hi, den=8):
+    """a multiple of 1/den in [lo, hi] (exactly representable, few significant bits)"""
+    return Fraction(rng.randint(int(lo * den), int(hi * den)), den)
+
+
+def thr_coq(ts):
+    return '[' + '; '.join('None' if t is None else f'Some {cdy(t)}' for t in ts) + ']'
+
+
+# ---------------------------------------------------------------------------- argument language
+class Args:
+    """generates argument sub-trees together with their exact value per row"""
+
+    def __init__(self, rng, nrows):
+        self.rng = rng
+        self.nrows = nrows
+        self.rows = [dict() for _ in range(nrows)]      # var -> Fraction
+        self.betas = {}                                  # name -> Fraction (the value used at evaluation)
+        self.k = 0
+
+    def fresh(self, p):
+        self.k += 1
+        return f'{p}{self.k}'
+
+    def var(self, values):
+        n = self.fresh('v')
+        for r, v in zip(self.rows, values):
+            r[n] = Fraction(v)
+        return {'var': n}, list(map(Fraction, values))
+
+    def beta(self, value, init=None, fixed=False):
+        n = self.fresh('b')
+        self.betas[n] = Fraction(value)
+        return {'beta': n, 'value': hx(value if init is None else init), 'fixed': fixed}, [Fraction(value)] * self.nrows
+
+    def const(self, value, how):
+        v = Fraction(value)
+        if how == 'int' and v.denominator == 1:
+            return {'int': int(v)}, [v] * self.nrows
+        if how == 'numeric':
+            return {'numeric': hx(v)}, [v] * self.nrows
+        return {'float': hx(v)}, [v] * self.nrows
+
+    def any(self, values, allow_var=True, same_init=True, compound=0.2):
+        """an argument whose value on row i is values[i] (values equal across rows unless a Variable is used)"""
+        rng = self.rng
+        const = all(v == values[0] for v in values)
+        if not const:
+            if not allow_var:
+                raise ValueError('row-dependent value needs a variable')
+            if rng.random() < compound:
+                # v + c  or  c * v'  with exact rational arithmetic
+                c = grid(rng, 1, 4, 2)
+                if rng.random() < 0.5:
+                    a, _ = self.var([v - c for v in values])
+                    b, _ = self.const(c, rng.choice(['float', 'numeric', 'int']))
+                    return {'op': 'Plus', 'args': [a, b]}, list(map(Fraction, values))
+                a, _ = self.var([v / c for v in values])
+                b, _ = self.beta(c)
+                return {'op': 'Times', 'args': [b, a]}, list(map(Fraction, values))
+            return self.var(values)
+        v = Fraction(values[0])
+        u = rng.random()
+        if u < 0.3:
+            return self.beta(v, None if same_init else grid(rng, 1, 3, 2))
+        if u < 0.45 and allow_var:
+            return self.var(values)
+        if u < 0.6 and compound > 0:
+            c = grid(rng, 1, 3, 2)
+            a, _ = self.beta(v - c, None if same_init else grid(rng, 1, 3, 2))
+            b, _ = self.const(c, rng.choice(['float', 'numeric']))
+            return {'op': 'Plus', 'args': [a, b]}, [v] * self.nrows
+        return self.const(v, rng.choice(['float', 'numeric', 'int']))
+
+
+def arg_coq(a):
+    if 'var' in a:
+        return f'(EVar {coq_string(a["var"])})'
+    if 'beta' in a:
+        return f'(EBeta {coq_string(a["beta"])} {"true" if a.get("fixed") else "false"})'
+    if 'numeric' in a:
+        return f'(ENumD {cdy(float.fromhex(a["numeric"]))})'
+    if 'float' in a:
+        return f'(ENumD {cdy(float.fromhex(a["float"]))})'
+    if 'int' in a:
+        return f'(ENumD {cdy(float(a["int"]))})'
+    if 'op' in a:
+        return f'(EBin {a["op"]} {arg_coq(a["args"][0])} {arg_coq(a["args"][1])})'
+    if 'un' in a:
+        return f'(EUn {"Exp" if a["un"] == "exp" else "UMinus"} {arg_coq(a["arg"])})'
+    raise ValueError(a)
+
+
+# ---------------------------------------------------------------------------- exact / high-precision closed forms
+from decimal import Decimal, getcontext
+getcontext().prec = 60
+PI = Decimal('3.14159265358979323846264338327950288419716939937510582097494')
+SQRT2PI = (2 * PI).sqrt()
+
+
+def D(x):
+    if isinstance(x, Fraction):
+        return Decimal(x.numerator) / Decimal(x.denominator)
+    return Decimal(x)
+
+
+def clipf(x, a, b):
+    return max(Fraction(0), min(x - a, b - a))
+
+
+def pw_values(x, ts):
+    """the documented variables max(0, min(t - a, b - a)) with open ends"""
+    out = []
+    for i in range(len(ts) - 1):
+        a, b = ts[i], ts[i + 1]
+        if a is None and b is None:
+            out.append(x)
+        elif a is None:
+            out.append(min(x, b))
+        elif b is None:
+            out.append(max(Fraction(0), x - a))
+        else:
+            out.append(clipf(x, a, b))
+    return out
+
+
+def pw_plain(x, ts, betas):
+    """piecewise linear function through the documented variables (independent of the repository)"""
+    return sum((b * w for b, w in zip(betas, pw_values(x, ts))), Fraction(0))
+
+
+def boxcox_closed(x, l):
+    x, l = D(x), D(l)
+    if x == 0:
+        return Decimal(0)
+    if l == 0:
+        return x.ln()
+    return ((l * x.ln()).exp() - 1) / l
+
+
+def normal_closed(x, m, s, const=SQRT2PI):
+    x, m, s = D(x), D(m), D(s)
+    return (-(x - m) ** 2 / (2 * s * s)).exp() / (s * const)
+
+
+def lognormal_closed(x, m, s, const=SQRT2PI):
+    x, m, s = D(x), D(m), D(s)
+    return (-(x.ln() - m) ** 2 / (2 * s * s)).exp() / (x * s * const)
+
+
+def uniform_closed(x, a, b):
+    return 1 / (b - a) if a <= x <= b else Fraction(0)
+
+
+def triangular_closed(x, a, b, c):
+    if x < a or x > b:
+        return Fraction(0)
+    if x < c:
+        return 2 * (x - a) / ((b - a) * (c - a))
+    if x == c:
+        return 2 / (b - a)
+    return 2 * (b - x) / ((b - a) * (b - c))
+
+
+def logistic_closed(x, m, s):
+    x, m, s = D(x), D(m), D(s)
+    return 1 / (1 + (-(x - m) / s).exp())
+
+
+def regression_closed(y, m, s):
+    y, m, s = D(y), D(m), D(s)
+    return -((y - m) / s) ** 2 / 2 - s.ln() - (2 * PI).ln() / 2
+
+
+def close(obs, exp, rel, absl=0.0):
+    """|obs - exp| <= rel * |exp| + absl, decided in exact / 60-digit arithmetic"""
+    if not isinstance(obs, float) or not math.isfinite(obs):
+        return False
+    if isinstance(exp, Fraction):
+        return abs(Fraction(obs) - exp) <= Fraction(rel) * abs(exp) + Fraction(absl)
+    o = Decimal(obs)
+    return abs(o - exp) <= Decimal(rel) * abs(exp) + Decimal(absl)
+
+
+REL_RAT = 2.0 ** -40     # rational closed forms on <= 12-bit dyadic inputs: a handful of roundings of 2^-53
+REL_TR = 1e-11           # exp / log / pow of the engine's libm: a few ulp, amplified by the conditioning we generate
+REL_CONST = 2.1e-10      # the constants 2.506628275 / 0.9189385332 (theorems T17f / T17h)
+
+
+# ============================================================================ case generators
+def gen_thresholds(rng):
+    """(thresholds as Python numbers / None, kind) -- first threshold non-zero"""
+    u = rng.random()
+    if u < 0.07:
+        bad = rng.choice(['empty', 'single', 'allnone', 'inner', 'single_none'])
+        if bad == 'empty':
+            return [], 'malformed'
+        if bad == 'single':
+            return [float(grid(rng, 1, 9))], 'malformed'
+        if bad == 'single_none':
+            return [None], 'malformed'
+        if bad == 'allnone':
+            return [None] * rng.randint(2, 3), 'malformed'
+        ts = [float(grid(rng, 1, 5)), None, float(grid(rng, 6, 9)), float(grid(rng, 10, 12))]
+        return ts, 'malformed'
+    k = rng.choice([2, 2, 3, 3, 3, 4, 4, 5, 6])
+    if u < 0.2:
+        # decimal thresholds: Python rounds the differences (structural tie incl. rounding; values within tolerance)
+        t = round(rng.choice([-1, 1]) * rng.uniform(0.1, 20), rng.choice([1, 2]))
+        if t == 0:
+            t = 0.3
+        ts = [t]
+        for _ in range(k - 1):
+            ts.append(round(ts[-1] + rng.uniform(0.1, 9), rng.choice([1, 2])))
+        kind = 'rounded'
+    else:
+        t = grid(rng, -20, 20)
+        if t == 0:
+            t = Fraction(5, 2)
+        ts = [t]
+        for _ in range(k - 1):
+            ts.append(ts[-1] + (0 if rng.random() < 0.04 else grid(rng, 0.5, 10)))
+        ts = [int(v) if (v.denominator == 1 and rng.random() < 0.6) else float(v) for v in ts]
+        kind = 'exact'
+    if rng.random() < 0.25:
+        ts[0] = None
+    if rng.random() < 0.3:
+        ts[-1] = None
+    if all(t is None for t in ts):
+        ts[0] = 2.5
+    return ts, kind
+
+
+def xs_around(rng, ts, n):
+    vals = [fr(t) for t in ts if t is not None]
+    lo, hi = min(vals), max(vals)
+    cands = [lo - grid(rng, 0.5, 6), hi + grid(rng, 0.5, 6), rng.choice(vals)]
+    for a, b in zip(vals, vals[1:]):
+        cands.append((a + b) / 2)
+    while len(cands) < n:
+        cands.append(grid(rng, -30, 40))
+    rng.shuffle(cands)
+    # keep the values exactly representable with few bits
+    return [Fraction(round(c * 64), 64) for c in cands[:n]]
+
+
+def ts_json(ts):
+    return [None if t is None else (t if isinstance(t, int) else hx(t)) for t in ts]
+
+
+def ts_frac(ts):
+    return [None if t is None else fr(t) for t in ts]
+
+
+def mk_rows(A):
+    return [{k: hx(v) for k, v in r.items()} for r in A.rows]
+
+
+def fname(t):
+    return 'minus_inf' if t is None else f'{t}'
+
+
+def gen_case(rng, kind, nrows=3):
+    """returns a dict: case (for the runner), coq (lambda result -> bool term), expect (per row exact value or
+    None), tol, envs, nontrivial"""
+    A = Args(rng, nrows)
+    out = {'kind': kind}
+    if kind in ('pwvars', 'pwformula', 'pwasvar'):
+        ts, tk = gen_thresholds(rng)
+        name = rng.choice(['x', 'TRAIN_TT', 'cost'])
+        valid = tk != 'malformed'
+        xs = xs_around(rng, ts, nrows) if valid else [Fraction(1)] * nrows
+        for r, v in zip(A.rows, xs):
+            r[name] = v
+        case = {'kind': kind, 'name': name, 'ts': ts_json(ts), 'as_object': rng.random() < 0.5}
+        tsc = thr_coq(ts)
+        tsf = ts_frac(ts)
+        out.update(tk=tk, ts=ts)
+        scale = max([abs(t) for t in tsf if t is not None] + [1])
+        out['absl'] = float(scale) * 2.0 ** -40
+        if kind == 'pwvars':
+            out['coq'] = lambda res: (
+                f'match piecewise_variables (EVar {coq_string(name)}) {tsc} with '
+                + ('Some l => list_eqb expr_eqb l [' + '; '.join(json_to_coq(t) for t in res['trees']) + '] | None => false end'
+                   if res.get('ok') else 'None => true | Some _ => false end'))
+            if valid:
+                out['expect_vars'] = [pw_values(x, tsf) for x in xs]
+                first, last = tsf[0], tsf[-1]
+                tot = []
+                for x in xs:
+                    if first is None and last is None:
+                        tot.append(x)
+                    elif first is None:
+                        tot.append(min(x, last))
+                    elif last is None:
+                        tot.append(max(Fraction(0), x - first))
+                    else:
+                        tot.append(max(Fraction(0), min(x - first, last - first)))
+                out['expect'] = tot          # the clipped distance from the first threshold
+        else:
+            nb = len(ts) - (1 if kind == 'pwformula' else 2)
+            default = rng.random() < 0.2 and valid
+            wrong_len = valid and rng.random() < 0.05
+            if default:
+                case['betas'] = None
+                rng_ts = ts[:-1] if kind == 'pwformula' else ts[1:-1]
+                off = 0 if kind == 'pwformula' else 1
+                names = [f'beta_{name}_{fname(a)}_{"inf" if ts[i + 1 + off] is None else ts[i + 1 + off]}'
+                         for i, a in enumerate(rng_ts)]
+                bvals = [grid(rng, -3, 3, 4) for _ in names]
+                for n_, v_ in zip(names, bvals):
+                    A.betas[n_] = v_
+                bcoq = '[' + '; '.join(f'(EBeta {coq_string(n_)} false)' for n_ in names) + ']'
+            else:
+                n_here = max(0, nb + (rng.choice([-1, 1]) if wrong_len else 0))
+                specs, bvals = [], []
+                for _ in range(n_here):
+                    v_ = grid(rng, -3, 3, 4)
+                    a_, _ = A.any([v_] * nrows, allow_var=False, same_init=False, compound=0.15)
+                    specs.append(a_)
+                    bvals.append(v_)
+                case['betas'] = specs
+                bcoq = '[' + '; '.join(arg_coq(a_) for a_ in specs) + ']'
+            fn = 'piecewise_formula' if kind == 'pwformula' else 'piecewise_as_variable'
+            out['coq'] = lambda res: (
+                f'match {fn} (EVar {coq_string(name)}) {tsc} {bcoq} with '
+                + (f'Some t => expr_eqb t {json_to_coq(res["tree"])} | None => false end' if res.get('ok')
+                   else 'None => true | Some _ => false end'))
+            if valid and not wrong_len and nb >= 1:
+                if kind == 'pwformula':
+                    out['expect'] = [pw_plain(x, tsf, bvals) for x in xs]
+                else:
+                    out['expect'] = [pw_values(x, tsf)[0] + sum((b * w for b, w in zip(bvals, pw_values(x, tsf)[1:])), Fraction(0))
+                                     for x in xs]
+                out['pwfun'] = {'ts': ts, 'betas': bvals, 'xs': xs}
+        out['tol'] = REL_RAT
+        out['nontrivial'] = valid
+    elif kind == 'boxcox':
+        mode = rng.random()
+        c = 1e-5
+        if mode < 0.55:     # around the switching points +-1e-5 (within 2e-5 of them)
+            base = rng.choice([c, -c])
+            l = rng.choice([base, math.nextafter(base, 0.0), math.nextafter(base, 2 * base),
+                            base * (1 + rng.uniform(-1, 1) * 10 ** rng.uniform(-9, 0)),
+                            base + rng.uniform(-2e-5, 2e-5), rng.uniform(-3e-5, 3e-5), 0.0,
+                            base * 0.999, base * 1.001])
+        else:
+            l = float(grid(rng, -4, 4, 16))
+            if l == 0:
+                l = 0.5
+        xs = [grid(rng, 0.0625, 64, 16) for _ in range(nrows)]
+        if rng.random() < 0.15:
+            xs[0] = Fraction(0)
+        if mode < 0.3:
+            xs[-1] = Fraction(15)
+        xa, _ = A.any(xs, compound=0.15)
+        how = rng.random()
+        lf = fr(l)
+        if how < 0.4:
+            la, _ = A.beta(lf, None if rng.random() < 0.5 else 1.0)
+        elif how < 0.6:
+            la, _ = A.const(lf, 'numeric')
+        elif how < 0.8:
+            la, _ = A.const(lf, 'float')
+        else:
+            la, _ = A.var([lf] * nrows)
+        case = {'kind': kind, 'x': xa, 'ell': la}
+        if 'float' in la:
+            c2, c3 = l ** 2, l ** 3
+            out['coq'] = lambda res: (f'expr_eqb (boxcox_float {arg_coq(xa)} {cdy(l)} {cdy(c2)} {cdy(c3)}) {json_to_coq(res["tree"])}'
+                                      if res.get('ok') else 'false')
+        else:
+            out['coq'] = lambda res: (f'expr_eqb (boxcox {arg_coq(xa)} {arg_coq(la)}) {json_to_coq(res["tree"])}'
+                                      if res.get('ok') else 'false')
+        out['expect'] = [boxcox_closed(x, lf) for x in xs]
+        out['tol'] = 1e-9   # conditioning of (x^l-1)/l at |l| ~ 1e-5 (cancellation ~ 1e-16/3e-5) + series remainder l^4 ln^5 x/120
+        out['absl'] = 1e-13
+        out['nontrivial'] = True
+        out['near_switch'] = abs(abs(l) - c) <= 2e-5
+    elif kind in ('normalpdf', 'lognormalpdf', 'logisticcdf', 'loglikelihoodregression', 'likelihoodregression'):
+        m = grid(rng, -3, 3, 4)
+        s = grid(rng, 0.25, 4, 8)
+        if kind == 'lognormalpdf':
+            xs = [grid(rng, 0.125, 12, 8) for _ in range(nrows)]
+        else:
+            xs = [m + s * grid(rng, -4, 4, 8) for _ in range(nrows)]
+        xa, _ = A.any(xs, compound=0.2)
+        ma, _ = A.any([m] * nrows, compound=0.2)
+        if rng.random() < 0.3:       # expression-valued scale (Variable): needs the repaired except clause
+            sa, _ = A.var([s] * nrows)
+        else:
+            sa, _ = A.any([s] * nrows, allow_var=False, compound=0.0)
+        case = {'kind': kind, 'args': [xa, ma, sa]}
+        out['coq'] = lambda res: (f'expr_eqb ({kind} {arg_coq(xa)} {arg_coq(ma)} {arg_coq(sa)}) {json_to_coq(res["tree"])}'
+                                  if res.get('ok') else 'false')
+        f = {'normalpdf': normal_closed, 'lognormalpdf': lognormal_closed, 'logisticcdf': logistic_closed,
+             'loglikelihoodregression': regression_closed,
+             'likelihoodregression': lambda y, m_, s_: regression_closed(y, m_, s_).exp()}[kind]
+        out['expect'] = [f(x, m, s) for x in xs]
+        out['tol'] = REL_TR if kind == 'logisticcdf' else REL_CONST
+        out['absl'] = 1e-11 if kind == 'loglikelihoodregression' else 1e-300
+        out['nontrivial'] = True
+    elif kind == 'uniformpdf':
+        a = grid(rng, -5, 5, 4)
+        b = a + grid(rng, 0.25, 8, 4)
+        xs = [rng.choice([a, b, a - grid(rng, 0.25, 3, 4), b + grid(rng, 0.25, 3, 4), a + (b - a) * Fraction(rng.randint(1, 7), 8)])
+              for _ in range(nrows)]
+        xa, _ = A.any(xs, compound=0.15)
+        aa, _ = A.any([a] * nrows, compound=0.1)
+        ba, _ = A.any([b] * nrows, compound=0.1)
+        case = {'kind': kind, 'args': [xa, aa, ba]}
+        out['coq'] = lambda res: (f'expr_eqb (uniformpdf {arg_coq(xa)} {arg_coq(aa)} {arg_coq(ba)}) {json_to_coq(res["tree"])}'
+                                  if res.get('ok') else 'false')
+        out['expect'] = [uniform_closed(x, a, b) for x in xs]
+        out['tol'] = REL_RAT
+        out['nontrivial'] = True
+    elif kind == 'triangularpdf':
+        a = grid(rng, -5, 5, 4)
+        c = a + grid(rng, 0.25, 4, 4)
+        b = c + grid(rng, 0.25, 4, 4)
+        xs = [rng.choice([a, b, c, a - 1, b + 1, a + (c - a) * Fraction(rng.randint(1, 7), 8),
+                          c + (b - c) * Fraction(rng.randint(1, 7), 8)]) for _ in range(nrows)]
+        xa, _ = A.any(xs, compound=0.15)
+        aa, _ = A.any([a] * nrows, compound=0.1)
+        ba, _ = A.any([b] * nrows, compound=0.1)
+        ca, _ = A.any([c] * nrows, compound=0.1)
+        case = {'kind': kind, 'args': [xa, aa, ba, ca]}
+        out['coq'] = lambda res: (f'expr_eqb (triangularpdf {arg_coq(xa)} {arg_coq(aa)} {arg_coq(ba)} {arg_coq(ca)}) {json_to_coq(res["tree"])}'
+                                  if res.get('ok') else 'false')
+        out['expect'] = [triangular_closed(x, a, b, c) for x in xs]
+        out['tol'] = REL_RAT
+        out['nontrivial'] = True
+    elif kind == 'segmented':
+        case, coq_term, expect = gen_segmentation(rng, A, nrows)
+        out['coq'] = lambda res: (f'match {coq_term} with Some t => expr_eqb t {json_to_coq(res["tree"])} | None => false end'
+                                  if res.get('ok') else f'match {coq_term} with None => true | Some _ => false end')
+        if expect is not None:
+            out['expect'] = expect
+        out['tol'] = REL_RAT
+        out['nontrivial'] = expect is not None
+    else:
+        raise ValueError(kind)
+    case['rows'] = mk_rows(A)
+    case['beta_values'] = {k: hx(v) for k, v in A.betas.items()}
+    out['case'] = case
+    out['envs'] = [{'beta': {k: float(v) for k, v in A.betas.items()}, 'var': {k: float(v) for k, v in r.items()}}
+                   for r in A.rows]
+    return out
+
+
+CATS = ['m', 'f', 'other', 'lo', 'mid', 'hi', 'GA', 'no_GA', 'c1', 'c2']
+
+
+def gen_segmentation(rng, A, nrows, force_valid=False):
+    bname = rng.choice(['B_TIME', 'ASC', 'b'])
+    status = 1 if rng.random() < 0.2 else 0
+    bref = grid(rng, -3, 3, 4)
+    lb = None if rng.random() < 0.5 else float(bref - 5)
+    ub = None if rng.random() < 0.6 else float(bref + 5)
+    A.betas[bname] = bref
+    init = grid(rng, -2, 2, 4)
+    beta = {'name': bname, 'value': hx(init), 'lb': None if lb is None else hx(lb), 'ub': None if ub is None else hx(ub),
+            'status': status}
+    nseg = rng.choice([1, 1, 2, 2, 3])
+    segs, coq_segs = [], []
+    total = [bref] * nrows
+    valid = True
+    for si in range(nseg):
+        var = f'seg{si}_{rng.choice(["g", "inc", "age"])}'
+        k = rng.randint(2, 4)
+        values = rng.sample(range(-2, 9), k)
+        cats = rng.sample(CATS, k)
+        if rng.random() < 0.08:
+            cats[-1] = cats[0]       # two values mapped to the same category name
+        u = rng.random()
+        if u < 0.3:
+            ref = None
+        elif u < 0.93 or force_valid:
+            ref = rng.choice(cats)
+        else:
+            ref = 'not_a_category'
+            valid = False
+        refname = cats[0] if ref is None else ref
+        segs.append({'var': var, 'mapping': [[v, c] for v, c in zip(values, cats)], 'ref': ref,
+                     'as_object': rng.random() < 0.5})
+        coq_segs.append(f'(mkSeg {coq_string(var)} ['
+                        + '; '.join(f'({cz(v)}, {coq_string(c)})' for v, c in zip(values, cats))
+                        + f'] {"None" if ref is None else "(Some " + coq_string(ref) + ")"})')
+        shifts = {}
+        for v, c in zip(values, cats):
+            if c != refname:
+                nm = f'{bname}_{c}'
+                if nm not in A.betas:
+                    A.betas[nm] = grid(rng, -3, 3, 4)
+                shifts[v] = A.betas[nm]
+        for i in range(nrows):
+            xv = rng.choice(values + [values[0], 77])
+            A.rows[i][var] = Fraction(xv)
+            total[i] += shifts.get(xv, Fraction(0))
+    case = {'kind': 'segmented', 'beta': beta, 'segs': segs, 'via_function': rng.random() < 0.3}
+    coq_term = f'segmented_beta {coq_string(bname)} {"true" if status else "false"} [' + '; '.join(coq_segs) + ']'
+    return case, coq_term, (total if valid else None)
+
+
+# ============================================================================ running cases
+KINDS = ['pwvars', 'pwformula', 'pwasvar', 'boxcox', 'boxcox', 'normalpdf', 'lognormalpdf', 'uniformpdf',
+         'triangularpdf', 'logisticcdf', 'loglikelihoodregression', 'likelihoodregression', 'segmented']
+COQ_HEADER = ('From BV Require Import Model.Expr Model.Builders17.\n'
+              'Open Scope Z_scope. Open Scope string_scope.\n')
+
+
+def run_impl(ctx, cases, chunk=24):
+    payloads = [{'cases': cases[i:i + chunk]} for i in range(0, len(cases), chunk)]
+    res = ctx.impl_parallel('c17_build.py', payloads, timeout=1200)
+    return [r for part in res for r in part]
+
+
+def val_list(res):
+    v = res.get('values')
+    if v is None:
+        return None
+    if v and isinstance(v[0], list):
+        return [[float.fromhex(x) for x in row] for row in v]
+    return [float.fromhex(x) for x in v]
+
+
+def witness_of(g, res, row=None):
+    w = {'case': g['case']}
+    if row is not None:
+        w['row'] = row
+    if res is not None:
+        w['implementation'] = {k: v for k, v in res.items() if k not in ('tree', 'trees', 'betas')}
+    return w
+
+
+def oracle(ctx, g, res, st=None):
+    """the property, evaluated on the engine's numbers: value = documented closed form.
+    Returns the number of violations recorded."""
+    kind = g['kind']
+    nv = 0
+    how = ('build the expression with the helper named in case.kind on case arguments, evaluate it with '
+           'get_value_c on case.rows / case.beta_values (see lib/impl/c17_build.py) and compare with the closed form')
+    if not res.get('ok'):
+        if 'expect' in g or 'expect_vars' in g:
+            ctx.violation(f'C17/{kind}/refused', f'{kind} raised {res.get("exc")} on valid arguments',
+                          witness_of(g, res), 'an expression', res.get('msg'), how)
+            return 1
+        return 0
+    if 'eval_error' in res:
+        if 'expect' in g:
+            ctx.violation(f'C17/{kind}/eval-error', f'{kind}: the engine could not evaluate the expression',
+                          witness_of(g, res), 'a value', res['eval_error'], how)
+            return 1
+        return 0
+    vals = val_list(res)
+    if vals is None:
+        return 0
+    absl = g.get('absl', 0.0)
+    if kind == 'pwvars' and 'expect_vars' in g:
+        nrows = len(g['expect'])
+        for i in range(nrows):
+            per_var = [vals[k][i] for k in range(len(vals))]
+            exp_vars = g['expect_vars'][i]
+            if len(per_var) != len(exp_vars):
+                ctx.violation('C17/pwvars/count', f'piecewise_variables returned {len(per_var)} variables for '
+                              f'{len(g["ts"])} thresholds', witness_of(g, res, i), len(exp_vars), len(per_var), how)
+                return nv + 1
+            tot = math.fsum(per_var)
+            if not close(tot, g['expect'][i], g['tol'], absl):
+                ctx.violation('C17/pwvars/sum', 'the piecewise variables do not sum to the clipped distance from the first '
+                              'threshold', witness_of(g, res, i), str(g['expect'][i]), tot, how)
+                nv += 1
+            elif any(not close(o, e, g['tol'], absl) for o, e in zip(per_var, exp_vars)):
+                ctx.violation('C17/pwvars/variable', 'a piecewise variable differs from max(0, min(t - a, b))',
+                              witness_of(g, res, i), [str(e) for e in exp_vars], per_var, how)
+                nv += 1
+        return nv
+    if 'expect' not in g:
+        return 0
+    for i, (o, e) in enumerate(zip(vals, g['expect'])):
+        if not close(o, e, g['tol'], absl):
+            ctx.violation(f'C17/{kind}/value', f'{kind}: the engine value differs from the documented closed form',
+                          witness_of(g, res, i), str(e), o, how)
+            nv += 1
+    return nv
+
+
+def structural(ctx, st, gens, results, tag):
+    """tree built by Python == tree built by the Gallina builder (expr_eqb inside Coq)"""
+    items = []
+    for g, r in zip(gens, results):
+        if r.get('stage') in ('bridge', 'runner'):
+            st.disagree(g['case'], 'a tree', r, 'bridge/runner failure')
+            items.append('false')
+            continue
+        items.append(g['coq'](r))
+    B = 60
+    files = {}
+    for i in range(0, len(items), B):
+        files[f'{tag}_{i // B}'] = COQ_HEADER + 'Eval vm_compute in [\n' + ';\n'.join(items[i:i + B]) + '].\n'
+    outs = ctx.coq_eval_many(files)
+    bad = []
+    for k in sorted(files, key=lambda s: int(s.rsplit('_', 1)[1])):
+        ok, out = outs[k]
+        i0 = int(k.rsplit('_', 1)[1]) * B
+        n_here = len(items[i0:i0 + B])
+        if not ok:
+            ctx.stream_broken(st.name, 'model evaluation failed: ' + out[-800:])
+            continue
+        bs = parse_bools(out)
+        if len(bs) != n_here:
+            ctx.stream_broken(st.name, f'could not parse model output ({len(bs)} results for {n_here} cases)')
+            continue
+        for j, b in enumerate(bs):
+            if not b:
+                g, r = gens[i0 + j], results[i0 + j]
+                st.disagree(g['case'], 'tree of the Gallina builder (Model/Builders17.v)',
+                            {k_: v for k_, v in r.items() if k_ not in ('values',)}, g['kind'])
+                bad.append(i0 + j)
+    return bad
+
+
+def load_corpus(name):
+    import os
+    p = f'/verif/corpus/C17/{name}.json'
+    if not os.path.exists(p):
+        return []
+    return json.load(open(p))
+
+
+def corpus_gens():
+    """hand-written witnesses (including the three repaired defects), expressed as generator outputs"""
+    gens = []
+    for c in load_corpus('build'):
+        g = {'kind': c['case']['kind'], 'case': c['case'], 'tol': c.get('tol', REL_RAT), 'absl': c.get('absl', 0.0),
+             'nontrivial': True, 'corpus': c.get('id')}
+        if 'expect' in c:
+            g['expect'] = [Fraction(e) for e in c['expect']]
+        if 'expect_vars' in c:
+            g['expect_vars'] = [[Fraction(e) for e in row] for row in c['expect_vars']]
+        coq_ok, coq_err = c['coq_ok'], c.get('coq_err', 'false')
+
+        def coq(res, coq_ok=coq_ok, coq_err=coq_err):
+            if not res.get('ok'):
+                return coq_err
+            if 'trees' in res:
+                return coq_ok.replace('@TREES', '[' + '; '.join(json_to_coq(t) for t in res['trees']) + ']')
+            return coq_ok.replace('@TREE', json_to_coq(res['tree']))
+        g['coq'] = coq
+        g['envs'] = [{'beta': {k: float.fromhex(v) for k, v in c['case'].get('beta_values', {}).items()},
+                      'var': {k: float.fromhex(v) if isinstance(v, str) else float(v) for k, v in r.items()}}
+                     for r in c['case'].get('rows', [])]
+        gens.append(g)
+    return gens
+
+
+def stream_build_values(ctx):
+    st = ctx.stream('build17', 'helpers x generated arguments (threshold lists of 2-6 entries with None ends, non-zero '
+                    'first threshold, ints/floats incl. decimal thresholds whose differences Python rounds, malformed lists; '
+                    'Beta / Numeric / float / int / Variable / compound arguments; 1-3 segmentations of 2-4 segments with '
+                    'every reference choice); non-trivial = the helper built a tree; distinct by the full argument tuple')
+    sv = ctx.stream('values17', 'engine value of every built helper on 3 rows vs (a) the proved interval enclosure of evalX '
+                    'of the tree (evalI, relative tolerance 2^-30) and (b) the documented closed form in exact rational / '
+                    '60-digit arithmetic; Box-Cox exponents within 2e-5 of the switching points +-1e-5; non-trivial = decided '
+                    'by the interval evaluator; distinct by (tree, row)')
+    rng = ctx.sub_rng('build17')
+    n = ctx.n(260, 5000)
+    gens = corpus_gens()
+    for i in range(n):
+        gens.append(gen_case(rng, KINDS[i % len(KINDS)]))
+    results = run_impl(ctx, [g['case'] for g in gens])
+    for g, r in zip(gens, results):
+        st.record({'kind': g['kind'], 'case': {k: v for k, v in g['case'].items() if k not in ('rows', 'beta_values')}},
+                  nontrivial=bool(r.get('ok')) and g.get('nontrivial', True))
+    bad = structural(ctx, st, gens, results, 'b17')
+    if st.disagreements:
+        ctx.stream_broken('build17', f'{len(st.disagreements)} structural disagreements, first: '
+                          + json.dumps(st.disagreements[0], default=str)[:1500])
+    # property oracle on every case (disagreeing ones first)
+    order = bad + [i for i in range(len(gens)) if i not in set(bad)]
+    nviol = 0
+    for i in order:
+        nviol += oracle(ctx, gens[i], results[i])
+    # enclosures
+    from values import check_values
+    vcases, owners = [], []
+    near = 0
+    for gi, (g, r) in enumerate(zip(gens, results)):
+        if not r.get('ok') or 'values' not in r:
+            continue
+        vals = val_list(r)
+        trees = r['trees'] if 'trees' in r else [r['tree']]
+        for ti, t in enumerate(trees):
+            vs = vals[ti] if 'trees' in r else vals
+            for ri, (env, o) in enumerate(zip(g['envs'], vs)):
+                vcases.append({'expr': t, 'env': env, 'observed': o})
+                owners.append((gi, ti, ri))
+        if g.get('near_switch'):
+            near += 1
+    sv.extra['boxcox_cases_within_2e-5_of_switch'] = near
+    try:
+        verdicts = check_values(ctx, 'values17', vcases, relbits=-30)
+    except RuntimeError as e:
+        ctx.stream_broken('values17', 'interval evaluation failed: ' + str(e)[-600:])
+        verdicts = []
+    und = 0
+    for c, (gi, ti, ri), (verdict, info) in zip(vcases, owners, verdicts):
+        g = gens[gi]
+        sv.record({'kind': g['kind'], 'env': c['env'], 'tree': ti, 'case': gi}, nontrivial=verdict != 'undecided')
+        if verdict == 'undecided':
+            und += 1
+        elif verdict == 'differ':
+            sv.disagree({'case': g['case'], 'row': ri, 'tree': ti}, info, c['observed'], g['kind'])
+    sv.extra['undecided'] = und
+    if sv.disagreements:
+        ctx.stream_broken('values17', f'{len(sv.disagreements)} engine values outside the enclosure of evalX, first: '
+                          + json.dumps(sv.disagreements[0], default=str)[:1200])
+        d = sv.disagreements[0]
+        ctx.violation(f'C17/{d["note"]}/enclosure', 'engine value outside the proved enclosure of the tree value',
+                      d['case'], d['model'], d['implementation'],
+                      'evaluate the helper with get_value_c on the row; compare with evalI (Model/EvalI.v)')
+
+
+# ---------------------------------------------------------------------------- piecewise_function (tie A validation + oracle)
+def stream_pwfun(ctx):
+    st = ctx.stream('pwfun17', 'piecewise_function(x, thresholds, betas) vs the sum of beta_i * max(0, min(x - t_i, '
+                    't_{i+1} - t_i)) in exact rational arithmetic (what Gen/Piecewise.v is proved to compute); valid sorted '
+                    'lists with None ends and non-zero first threshold, x below / inside / on / above the thresholds; '
+                    'non-trivial = x beyond the first threshold; distinct by (x, thresholds, betas)')
+    rng = ctx.sub_rng('pwfun17')
+    cases, expect = [], []
+    for c in load_corpus('pwfun'):
+        cases.append(c['case'])
+        expect.append(Fraction(c['expect']))
+    n = ctx.n(300, 6000)
+    while len(cases) < n:
+        ts, tk = gen_thresholds(rng)
+        if tk != 'exact':
+            continue
+        tsf = ts_frac(ts)
+        betas = [grid(rng, -3, 3, 4) for _ in range(len(ts) - 1)]
+        for x in xs_around(rng, ts, 3):
+            cases.append({'kind': 'pwfunction', 'x': hx(x), 'ts': ts_json(ts), 'betas': [hx(b) for b in betas]})
+            expect.append(pw_plain(x, tsf, betas))
+    res = run_impl(ctx, cases, chunk=200)
+    for c, e, r in zip(cases, expect, res):
+        first = next((t for t in c['ts'] if t is not None), None)
+        st.record(c, nontrivial=e != 0)
+        if not r.get('ok'):
+            st.disagree(c, str(e), r)
+            ctx.violation('C17/pwfunction/refused', 'piecewise_function raised on a valid threshold list', c, str(e), r,
+                          'call biogeme.models.piecewise.piecewise_function(x, thresholds, betas)')
+            continue
+        o = float.fromhex(r['value'])
+        if not close(o, e, REL_RAT, 2.0 ** -40):
+            st.disagree(c, str(e), o)
+            ctx.violation('C17/pwfunction/value', 'piecewise_function differs from the piecewise formula '
+                          '(sum of beta_i * clipped variables)', c, str(e), o,
+                          'call biogeme.models.piecewise.piecewise_function(x, thresholds, betas)')
+    if st.disagreements:
+        ctx.stream_broken('pwfun17', f'{len(st.disagreements)} disagreements, first: {json.dumps(st.disagreements[0], default=str)[:800]}')
+
+
+# ---------------------------------------------------------------------------- segmented_code
+def stream_segcode(ctx):
+    st = ctx.stream('segcode', 'exec of Segmentation.segmented_code() in a fresh namespace (only Beta, Variable, bioMultSum, '
+                    'Numeric imported) must define <prefix>_<beta> as a tree structurally equal to segmented_beta(), with '
+                    'identical (name, value, bounds, status) on every Beta; 1-3 segmentations of 2-4 segments, all reference '
+                    'choices, bounds present/absent, fixed/free, custom prefix; non-trivial = at least one non-reference '
+                    'category; distinct by the segmentation')
+    rng = ctx.sub_rng('segcode')
+    cases = [c['case'] for c in load_corpus('segcode')]
+    n = ctx.n(120, 2500)
+    while len(cases) < n:
+        A = Args(rng, 1)
+        case, _, _ = gen_segmentation(rng, A, 1, force_valid=True)
+        case = dict(case, kind='segcode')
+        case.pop('via_function', None)
+        if rng.random() < 0.3:
+            case['prefix'] = rng.choice(['seg', 'my_prefix', 'p'])
+        cases.append(case)
+    res = run_impl(ctx, cases, chunk=40)
+    how = 'exec(Segmentation(beta, tuples, prefix).segmented_code()) after `from biogeme.expressions import Beta, Variable, bioMultSum, Numeric`'
+    for c, r in zip(cases, res):
+        nonref = sum(len(s['mapping']) for s in c['segs']) - len(c['segs'])
+        st.record(c, nontrivial=nonref > 0)
+        if not r.get('ok'):
+            st.disagree(c, 'code', r)
+            ctx.violation('C17/segcode/refused', 'segmented_code()/segmented_beta() raised', c, 'code', r, how)
+            continue
+        if 'exec_error' in r:
+            st.disagree(c, 'executable code', r['exec_error'])
+            ctx.violation('C17/segcode/exec', 'the generated specification code does not execute', c,
+                          'code defining the segmented parameter', {'code': r['code'], 'error': r['exec_error']}, how)
+            continue
+        if r['rebuilt'] != r['direct']:
+            st.disagree(c, r['direct'], r['rebuilt'])
+            ctx.violation('C17/segcode/tree', 'the generated code describes a different formula than segmented_beta()', c,
+                          r['direct'], {'code': r['code'], 'rebuilt': r['rebuilt']}, how)
+        elif r['rebuilt_betas'] != r['direct_betas']:
+            st.disagree(c, r['direct_betas'], r['rebuilt_betas'])
+            ctx.violation('C17/segcode/betas', 'the generated code declares parameters with other values / bounds / status', c,
+                          r['direct_betas'], {'code': r['code'], 'rebuilt': r['rebuilt_betas']}, how)
+    if st.disagreements:
+        ctx.stream_broken('segcode', f'{len(st.disagreements)} disagreements, first: {json.dumps(st.disagreements[0], default=str)[:800]}')
+
+
+# ---------------------------------------------------------------------------- nested-logit correlation
+def nl_model(choice_set, nests, mu):
+    """Builders17.nl_correlation with nl_corr_entry (exact rationals)"""
+    out = []
+    for i in choice_set:
+        row = []
+        for j in choice_set:
+            acc = Fraction(1 if i == j else 0)
+            for mu_m, alts in nests:
+                if i in alts and j in alts and i != j:
+                    acc = 1 - (mu * mu) / (mu_m * mu_m)
+            row.append(acc)
+        out.append(row)
+    return out
+
+
+def stream_corr(ctx):
+    st = ctx.stream('corr17', 'NestsForNestedLogit.correlation() vs nl_correlation (Model/Builders17.v) with the entry formula '
+                    'of Gen/Piecewise.v, in exact rationals; partitions of 3-8 alternatives (any labels, shuffled choice set) '
+                    'into 1-3 nests plus alternatives alone, nest parameters as numbers or Beta, mu = 1 and mu <> 1; also '
+                    'the property itself: 1 - 1/mu_m^2 within a nest, 0 across, 1 on the diagonal; non-trivial = some nest '
+                    'with >= 2 alternatives; distinct by (choice set, nests, mu)')
+    rng = ctx.sub_rng('corr17')
+    cases = [c['case'] for c in load_corpus('nlcorr')]
+    n = ctx.n(80, 1500)
+    while len(cases) < n:
+        k = rng.randint(3, 8)
+        labels = rng.sample(range(0, 30), k)
+        pool = labels[:]
+        rng.shuffle(pool)
+        nests = []
+        for _ in range(rng.randint(1, 3)):
+            if len(pool) < 1:
+                break
+            size = rng.randint(1, min(4, len(pool)))
+            alts, pool = pool[:size], pool[size:]
+            nests.append([hx(grid(rng, 1, 5, 8)), alts])
+        mu = None if rng.random() < 0.6 else hx(rng.choice([Fraction(1), grid(rng, 0.5, 1, 8), Fraction(1, 2)]))
+        cases.append({'kind': 'nlcorr', 'choice_set': labels, 'nests': nests, 'mu': mu, 'as_beta': rng.random() < 0.4})
+    res = run_impl(ctx, cases, chunk=20)
+    how = 'NestsForNestedLogit(choice_set, nests).correlation(mu=mu)'
+    for c, r in zip(cases, res):
+        st.record(c, nontrivial=any(len(a) >= 2 for _, a in c['nests']))
+        if not r.get('ok'):
+            st.disagree(c, 'a matrix', r)
+            ctx.violation('C17/nlcorr/refused', 'correlation() raised', c, 'a matrix', r, how)
+            continue
+        mu = Fraction(1) if c.get('mu') is None else fr(float.fromhex(c['mu']))
+        nests = [(fr(float.fromhex(m)), a) for m, a in c['nests']]
+        model = nl_model(c['choice_set'], nests, mu)
+        obs = [[float.fromhex(v) for v in row] for row in r['matrix']]
+        okm = len(obs) == len(model) and all(
+            close(o, e, 2.0 ** -48, 2.0 ** -48) for ro, re_ in zip(obs, model) for o, e in zip(ro, re_))
+        if not okm:
+            st.disagree(c, [[str(e) for e in row] for row in model], obs)
+            # the property: within 1 - mu^2/mu_m^2 (1 - 1/mu_m^2 for mu = 1), across 0, diagonal 1 -- same numbers
+            ctx.violation('C17/nlcorr/value', 'nested-logit correlation differs from 1 - 1/mu_m^2 within a nest / 0 across / '
+                          '1 on the diagonal', c, [[str(e) for e in row] for row in model], obs, how)
+    if st.disagreements:
+        ctx.stream_broken('corr17', f'{len(st.disagreements)} disagreements, first: {json.dumps(st.disagreements[0], default=str)[:800]}')
+
+
+# ============================================================================ entry points
+def run(ctx):
+    ctx.assumptions += ASSUME
+    ctx.trusted += TRUSTED
+    try:
+        gen_all(ctx)
+    except Untranslatable as e:
+        ctx.tie_broken('py2v:Piecewise', str(e))
+    ctx.build()
+    stream_pwfun(ctx)
+    stream_build_values(ctx)
+    stream_segcode(ctx)
+    stream_corr(ctx)
+
+
+def replay(ctx, path):
+    w = json.load(open(path))
+    wit = w.get('witness')
+    if not isinstance(wit, dict):
+        print('replay: this file names an obligation/stream; re-run ./check C17')
+        return 2
+    case = wit.get('case', wit)
+    kind = case.get('kind')
+    r = run_impl(ctx, [case])[0]
+    still = None
+    if kind == 'pwfunction':
+        tsf = [None if t is None else (Fraction(t) if isinstance(t, int) else fr(float.fromhex(t))) for t in case['ts']]
+        e = pw_plain(fr(float.fromhex(case['x'])), tsf, [fr(float.fromhex(b)) for b in case['betas']])
+        still = (not r.get('ok')) or not close(float.fromhex(r['value']), e, REL_RAT, 2.0 ** -40)
+    elif kind == 'segcode':
+        still = (not r.get('ok')) or 'exec_error' in r or r.get('rebuilt') != r.get('direct') or \
+            r.get('rebuilt_betas') != r.get('direct_betas')
+    elif kind == 'nlcorr':
+        mu = Fraction(1) if case.get('mu') is None else fr(float.fromhex(case['mu']))
+        model = nl_model(case['choice_set'], [(fr(float.fromhex(m)), a) for m, a in case['nests']], mu)
+        still = (not r.get('ok')) or not all(
+            close(float.fromhex(o), e, 2.0 ** -48, 2.0 ** -48) for ro, re_ in zip(r['matrix'], model) for o, e in zip(ro, re_))
+    else:
+        exp, obs = w.get('expected'), None
+        vals = val_list(r) if r.get('ok') else None
+        row = wit.get('row')
+        if vals is None:
+            still = True
+        elif isinstance(exp, str) and row is not None:
+            e = Fraction(exp) if '/' in exp or exp.lstrip('-').isdigit() else Decimal(exp)
+            obs = math.fsum(v[row] for v in vals) if (vals and isinstance(vals[0], list)) else vals[row]
+            tol = REL_RAT if isinstance(e, Fraction) else 1e-9
+            still = not close(obs, e, tol, 1e-11)
+        else:
+            still = w.get('observed') == (vals if vals is not None else None)
+    print(json.dumps({'witness': case, 'observed_now': {k: v for k, v in r.items() if k not in ('tree', 'trees', 'direct', 'rebuilt')},
+                      'still_fails': bool(still)}, default=str)[:3000])
+    return 1 if still else 0
